@@ -114,6 +114,13 @@ def _is_geometry(e, body=None, ctx=None, depth=0):
                 continue
         if any(n in GEOMETRY_FIELDS for n in names):
             continue
+        if isinstance(x, tuple) and x and x[0] in ("upvar", "deref") and body is not None and body.kind == "closure" and depth < 3:
+            # a hoisted geometry value captured by the closure
+            y = S.strip_refs(x)
+            if y[0] == "upvar":
+                pb, pe = ctx.model.upvar_expr(body, y[1])
+                if pb is not None and _is_geometry(pe, pb, ctx, depth + 1):
+                    continue
         return False
     return True
 
@@ -168,7 +175,7 @@ def unsigned_subtractions(ctx, rule):
                 continue
             # padding difference discharged by the table rule R01.c
             la, lc = S.strip_refs(a), S.strip_refs(c)
-            if b.cn.endswith("Lang::unicode_reduce") and la[0] == "call" and la[1].endswith("::len") and lc[0] == "call" and lc[1].endswith("::len"):
+            if _is_reduce_padding(ctx, b, la, lc):
                 table += 1
                 ctx.ok(rule, key, where(b, bi), "`%s` is the padding length, non-negative because no reduction shrinks (R01.c)" % txt, kind="S")
                 continue
@@ -195,6 +202,34 @@ def unsigned_subtractions(ctx, rule):
     ctx.count("unsigned_subtractions_proved", proved)
     ctx.count("unsigned_subtractions_geometry_assumed", geom)
     ctx.floor(rule, "unsigned_subtraction_sites", n, 8)
+
+
+def _is_reduce_padding(ctx, b, la, lc):
+    """`len(chunk.1) - len(chunk.0)` for a chunk (pattern, replacement) yielded by Normalize over the *reduction* map: the
+    padding length, non-negative because no reduction entry shrinks (table rule R01.c)"""
+    if not (la[0] == "call" and la[1].endswith("::len") and lc[0] == "call" and lc[1].endswith("::len") and la[2] and lc[2]):
+        return False
+    x1, x0 = S.strip_refs(la[2][0]), S.strip_refs(lc[2][0])
+    if not (x1[0] == "field" and x0[0] == "field" and str(x1[2]) == "1" and str(x0[2]) == "0"):
+        return False
+    t1, t0 = S.strip_refs(x1[1]), S.strip_refs(x0[1])
+    if S.norm(t1) != S.norm(t0):
+        return False
+
+    def over_reduce_map(e):
+        for y in S.walk(e):
+            if isinstance(y, tuple) and y and y[0] == "call" and y[1].endswith("Normalize::new") and len(y[2]) > 1:
+                for z in S.walk(y[2][1]):
+                    if isinstance(z, tuple) and z and z[0] == "field" and str(z[2]) == "reduce_map":
+                        return True
+        return False
+    if over_reduce_map(t1):
+        return True
+    if b.kind == "closure" and t1 == ("arg", 2):
+        pb, it = U.closure_param_item(ctx, b)
+        if it is not None and over_reduce_map(it):
+            return True
+    return False
 
 
 def R19_bufs(ctx, b):
